@@ -79,6 +79,8 @@ fn main() {
         | "fuzz-frontend" => frontend::fuzz_frontend(&args[2], &args[3], &args[4], args[5].parse().unwrap(), args[6].parse().unwrap()),
         | "vocab-classes" => frontend::print_vocab(),
         | "fmt-dump" => fmtcheck::fmt_dump(&args[2]),
+        | "corpus-format" => fmtcheck::corpus_format(&args[2], &args[3], &args[4], args[5].parse().unwrap()),
+        | "replay-format" => fmtcheck::replay_format(&args[2], &args[3], &args[4], &args[5]),
         | "corpus-run" => {
             // zyconf corpus-run OUT MUTANTS_PER_FILE MAX_STEPS
             corpus::corpus_run(&args[2], args[3].parse().unwrap(), args[4].parse().unwrap());
